@@ -162,6 +162,13 @@ def _probe_host(orig, a, k, res, rec):
             rec['alt'] = enc(orig(s + ':8042')[0])
         except Exception as ex:     # noqa
             rec['alt'] = {'o': 'raised', 'r': repr(ex)[:120]}
+        # ... and needs to know whether the port returned is the default or was read from the text: the same call
+        # without a default (None comes back iff the text carries no port)
+        if (len(a) > 1 and a[1] is not None) or k.get('default_port') is not None:
+            try:
+                rec['nodefault'] = enc(orig(s))
+            except Exception as ex:     # noqa
+                rec['nodefault'] = {'o': 'raised', 'r': repr(ex)[:120]}
 
 
 def _wrap_function(name, orig, probe=_probe_none):
@@ -256,7 +263,7 @@ class _Hist:
         self.stack = [root]         # reader: open readers, innermost last
         self.depth = 0              # > 0 while a public call of this history is running (nested calls are not events)
         self.flags = set()
-        self.iter_open = False
+        self.iter_open = None       # the forwarding iterator of an iteration that has begun and not ended
         self.reach = 0              # WSGI stream
         self.written = False
         _OPEN.append(self)
@@ -281,7 +288,7 @@ class _Hist:
         return {'o': 'bytes', 'n': n}
 
     def event(self, e):
-        if self.iter_open and e.get('op') != 'iter':
+        if self.iter_open is not None and e.get('op') != 'iter':
             self.flags.add('call_during_iteration')
         if len(self.ev) >= MAX_EVENTS:
             self.flags.add('too_many_events')
@@ -292,7 +299,7 @@ class _Hist:
         if self.written:
             return
         self.written = True
-        if self.iter_open:
+        if self.iter_open is not None:
             self.flags.add('partial_iteration')
         if not self.ev:
             _COUNT['hist_empty:' + self.cls] += 1
@@ -615,7 +622,10 @@ class _AIter:
         h = self._h
         if not self._started:
             self._started = True
-            h.iter_open = True
+            if h.iter_open is None:
+                h.iter_open = self
+            else:
+                h.flags.add('call_during_iteration')     # a second iteration while the first is under way
         nested = h.depth > 0
         h.depth += 1
         try:
@@ -644,7 +654,8 @@ class _AIter:
             return
         self._done = True
         h = self._h
-        h.iter_open = False
+        if h.iter_open is self:
+            h.iter_open = None
         if nested:
             return
         try:
